@@ -225,10 +225,16 @@ fn module_plain(e: &EnumSpec, cfg: Config, form: usize) -> ModuleSrc {
         // from another enum resolves), a nested re-export, an absolute path next to a same-named local
         // decoy (a dropped leading `::` resolves to the decoy), and the plain extern-crate name
         let alias = format!("local_strum_{}", e.name.to_lowercase());
-        let path: &str = match form % 4 {
+        let path: &str = match form % 5 {
             0 => {
                 src.push(&format!("use strum_x as {};", alias));
                 &alias
+            }
+            // a local alias that happens to be called `strum`: the bare name is NOT the default `::strum`
+            4 => {
+                src.push("use strum_x as strum;");
+                prefix = "strum::";
+                "strum"
             }
             1 => "crate::reexp::inner",
             2 => {
@@ -243,8 +249,13 @@ fn module_plain(e: &EnumSpec, cfg: Config, form: usize) -> ModuleSrc {
             for d in o.derives.iter_mut() {
                 *d = d.replace("strum::", prefix);
             }
-            if o.derives.iter().any(|d| d.contains("strum_x::")) {
-                o.passthrough.push(format!("strum(crate = \"{}\")", path));
+            if o.derives.iter().any(|d| d.contains("strum_x::") || d.starts_with("strum::")) {
+                // (first or last among the pass-through attributes)
+                if form % 2 == 0 {
+                    o.passthrough.insert(0, format!("strum(crate = \"{}\")", path));
+                } else {
+                    o.passthrough.push(format!("strum(crate = \"{}\")", path));
+                }
             }
         }
     }
@@ -313,6 +324,11 @@ pub fn run(env: &Env, tier: &str, seed: u64, out: &mut Outcome) {
                         cfg.header = vec!["#![no_std]".into(), "#![allow(warnings)]".into()];
                         cfg.strum_default_features = false;
                         cfg.strum_features = vec!["derive".into()];
+                        // the user crate may have a feature of its own called `std`, and have it enabled: a
+                        // `cfg(feature = "std")` inside generated code is evaluated in THIS crate
+                        if profile == "rel" {
+                            cfg.extra_toml = "[features]\ndefault = [\"std\"]\nstd = []\n".into();
+                        }
                     }
                     Config::Renamed => {
                         cfg.header = vec!["#![allow(warnings)]".into(), "pub mod reexp { pub use strum_x as inner; }".into()];
@@ -491,7 +507,7 @@ pub fn replay(env: &Env, doc: &serde_json::Value) -> (i32, Outcome) {
         "B-renamed-crate" => Config::Renamed,
         _ => Config::Shadowed,
     };
-    for nested in [0usize, 1, 2, 3] {
+    for nested in [0usize, 1, 2, 3, 4] {
         let items = vec![Item { spec: spec.clone(), module: module_plain(&spec, cfgk, nested) }];
         let mut cfg = CrateCfg::new(env, "C19", "single");
         cfg.id = format!("c19{}", &cfgk.tag()[..1].to_lowercase());
